@@ -34,6 +34,7 @@ var (
 	noCache  = flag.Bool("no-cache", false, "ignore cached build results")
 	par      = flag.Int("par", 0, "parallel builds (default: number of CPUs)")
 	verbose  = flag.Bool("v", false, "progress on stderr")
+	mkCorpus = flag.String("make-corpus", "", "append a self-contained sample of the run's cases (program text + ops) to this corpus file")
 )
 
 type checker struct {
